@@ -535,6 +535,8 @@ register(PropertySpec(
         Rule("FLATTEN-EACH", aggregates.rule_flatten_each, 3,
              "Flatten._apply_mapping_ yields once per inner element on every path, unconditionally, iterating the inner "
              "value as it is; a non-iterable is wrapped as a singleton"),
+        Rule("FLATTEN-KEYED", aggregates.rule_flatten_keyed, 1,
+             "a one-to-many mapping is part of the variable set that keys result caches and duplicate suppression"),
         Rule("FLATTEN-EACH", _lazy("extra", "rule_flatten_paths"), 2,
              "every value reaches the loop over its elements (no early return), and each element is identified by itself, "
              "not by its parent"),
